@@ -58,6 +58,13 @@ var zodiacFest = ev.Register(&ev.P[dayCase]{
 		if c.J%4 == 0 {
 			hh, mi, sec = 0, 0, 0
 		}
+		// the same month-day is asked first in a year far outside the range (the civil side accepts any year): 2^16,
+		// 2^15, 2^32 years away — what it leaves behind must not reach the year asked next
+		func() {
+			defer func() { _ = recover() }()
+			far := calendar.NewSolar(y+[]int{65536, 32768, 131072, 1 << 32, 65536 * 3}[ref.Mod(c.J, 5)], m, d, 0, 0, 0)
+			_, _, _ = far.GetFestivals(), far.GetOtherFestivals(), far.GetXingZuo()
+		}()
 		s := calendar.NewSolar(y, m, d, hh, mi, sec)
 		day := s.ToYmdHms()
 		want := SolarUtil.XINGZUO[signOf(m, d)]
